@@ -219,7 +219,7 @@ def _hist_group(rec, arg):
 def _histories(chk, src, depth, first=None):
     """The operator store against a dictionary model, for EVERY history of at most `depth` operations over two evolution points:
     store with errors / store without errors / unload / read / unload everything / iterate with items() / re-open the directory
-    with a fresh object.  After every step the store must list exactly the model's keys (iteration and membership), a read must
+    with a fresh object / change a looked-up operator in place and assign the same object again.  After every step the store must list exactly the model's keys (iteration and membership), a read must
     return the model's value element by element (or raise for an absent point), and re-opening must lose nothing.  The
     repository's code runs on the model file system of sa/fsmodel.py."""
     from .. import dag, fsmodel
@@ -230,7 +230,7 @@ def _histories(chk, src, depth, first=None):
     mdc = src.cls("eko.io.metadata.Metadata")
     eps = [(Fraction(100), 5), (Fraction(100), 4)]     # same scale, different nf: distinct keys
     ops = [("set+err", 0), ("set+err", 1), ("set", 0), ("set", 1), ("unload", 0), ("unload", 1), ("get", 0), ("get", 1),
-           ("unload-all",), ("items",), ("reopen",)]
+           ("unload-all",), ("items",), ("reopen",), ("resave", 0)]
     counter = [0]
 
     def operator(with_err):
@@ -308,6 +308,15 @@ def _histories(chk, src, depth, first=None):
                         o = operator(step[0] == "set+err")
                         pe.apply(bound(pe, eko, "__setitem__"), [eps[step[1]], o], {})
                         model[eps[step[1]]] = o
+                    elif step[0] == "resave":
+                        # the documented way of saving an in-place change: look the operator up, change its array, assign the same object
+                        ep = eps[step[1]]
+                        if ep in model:
+                            g = pe.apply(bound(pe, eko, "__getitem__"), [ep], {})
+                            counter[0] += 1
+                            g.attrs["operator"][0, 0, 0, 0] = dag.sym(f"changed{counter[0]}")
+                            pe.apply(bound(pe, eko, "__setitem__"), [ep, g], {})
+                            model[ep] = g
                     elif step[0] == "unload":
                         pe.apply(bound(pe, eko, "__delitem__"), [eps[step[1]]], {})
                     elif step[0] == "get":
